@@ -19,12 +19,25 @@
 (*                                  keeps kept[o], largest stamp drawn before a *)
 (*                                  release of o                                *)
 (*   Final(destroyed, dstamp, derived, use)                                     *)
+(* Events of one series of acquisition rounds (concurrent acquisition through   *)
+(* one borrowed reference, the behaviours of RefCountConc with InitOwn = 0):    *)
+(*   RoundsStart(threads k, start c, how)   per round a fresh object with count  *)
+(*                                  c, held by the lender (main) only            *)
+(*   Round(mid, destroyedMid, after, destroyedAfter, destroyedEnd, overlap, n)   *)
+(*                                  n rounds with this outcome: count read while *)
+(*                                  all k acquired references are alive, count   *)
+(*                                  after the k releases, destructor runs seen   *)
+(*                                  at those two quiescent points and at the end *)
+(*   RoundsEnd(rounds, overlapping)                                              *)
+(* Contract per round: mid = c + k (no reference is lost), after = c, nothing    *)
+(* is destroyed before the lender's release, exactly one destruction at the end. *)
 (* `race`, `crash`, `timeout`, `malformed` events are not actions of this       *)
 (* specification: a trace containing one is rejected.                           *)
 EXTENDS Integers, Sequences, FiniteSets, TLC, Json, IOUtils, TLCExt
 
-VARIABLES l, phase, M, T, types, refs, liveOf, reported, released, creatorRefs, maxRel
-tvars == <<l, phase, M, T, types, refs, liveOf, reported, released, creatorRefs, maxRel>>
+VARIABLES l, phase, M, T, types, refs, liveOf, reported, released, creatorRefs, maxRel,
+          rk, rstart, rseen, rover     \* acquisition rounds: threads, start count, rounds judged so far, of which overlapping
+tvars == <<l, phase, M, T, types, refs, liveOf, reported, released, creatorRefs, maxRel, rk, rstart, rseen, rover>>
 
 TraceLines == ndJsonDeserialize(IOEnv.TRACE)
 N == Len(TraceLines)
@@ -36,8 +49,10 @@ IsVec(v) == DOMAIN v = O
 
 Idle == /\ phase = "idle" /\ M = 0 /\ T = 0 /\ types = <<>> /\ refs = <<>> /\ liveOf = <<>>
         /\ reported = {} /\ released = {} /\ creatorRefs = <<>> /\ maxRel = <<>>
+        /\ rk = 0 /\ rstart = 0 /\ rseen = 0 /\ rover = 0
 IdleNext == /\ phase' = "idle" /\ M' = 0 /\ T' = 0 /\ types' = <<>> /\ refs' = <<>> /\ liveOf' = <<>>
             /\ reported' = {} /\ released' = {} /\ creatorRefs' = <<>> /\ maxRel' = <<>>
+            /\ rk' = 0 /\ rstart' = 0 /\ rseen' = 0 /\ rover' = 0
 TInit == l = 1 /\ Idle
 
 Start ==
@@ -48,6 +63,7 @@ Start ==
   /\ creatorRefs' = [o \in 1..Line.objs |-> 1]
   /\ maxRel' = [o \in 1..Line.objs |-> 0]
   /\ liveOf' = <<>> /\ reported' = {} /\ released' = {}
+  /\ UNCHANGED <<rk, rstart, rseen, rover>>
 
 \* a thread's own books balance: it holds what it acquired and did not release
 Books ==
@@ -59,6 +75,7 @@ Books ==
   /\ liveOf' = (Line.t :> Line.live) @@ liveOf
   /\ reported' = reported \cup {Line.t}
   /\ UNCHANGED <<phase, M, T, types, released, creatorRefs, maxRel>>
+  /\ UNCHANGED <<rk, rstart, rseen, rover>>
 
 \* conservation at the quiescent point; nothing may have been destroyed: every object is referenced
 Quiescent ==
@@ -67,6 +84,7 @@ Quiescent ==
   /\ \A o \in O : Line.destroyed[o] = 0 /\ Line.use[o] = refs[o]
   /\ phase' = "release"
   /\ UNCHANGED <<M, T, types, refs, liveOf, reported, released, creatorRefs, maxRel>>
+  /\ UNCHANGED <<rk, rstart, rseen, rover>>
 
 CreatorDrop ==
   /\ E = "CreatorDrop" /\ phase = "release"
@@ -75,6 +93,7 @@ CreatorDrop ==
   /\ creatorRefs' = [o \in O |-> creatorRefs[o] - Line.n[o]]
   /\ refs' = [o \in O |-> refs[o] - Line.n[o]]
   /\ UNCHANGED <<phase, M, T, types, liveOf, reported, released, maxRel>>
+  /\ UNCHANGED <<rk, rstart, rseen, rover>>
 
 \* a thread releases handles it owns (never more), possibly keeping some
 Release ==
@@ -86,6 +105,7 @@ Release ==
   /\ maxRel' = [o \in O |-> Max(maxRel[o], Line.maxstamp[o])]
   /\ released' = released \cup {Line.t}
   /\ UNCHANGED <<phase, M, T, types, liveOf, reported, creatorRefs>>
+  /\ UNCHANGED <<rk, rstart, rseen, rover>>
 
 Final ==
   /\ E = "Final" /\ phase = "release" /\ released = 0..T
@@ -100,9 +120,30 @@ Final ==
             /\ Line.use[o] = refs[o]
   /\ l' = l + 1 /\ IdleNext
 
+\* ---- acquisition rounds ----------------------------------------------------------------------
+BurstVarsUnchanged == UNCHANGED <<M, T, types, refs, liveOf, reported, released, creatorRefs, maxRel>>
+RoundsStart ==
+  /\ E = "RoundsStart" /\ phase = "idle"
+  /\ Line.threads \in 1..16 /\ Line.start \in 1..3
+  /\ phase' = "rounds" /\ rk' = Line.threads /\ rstart' = Line.start /\ rseen' = 0 /\ rover' = 0
+  /\ BurstVarsUnchanged
+\* n rounds with one outcome: every one of them must be a behaviour of the atomic model
+Round ==
+  /\ E = "Round" /\ phase = "rounds" /\ Line.n >= 1 /\ Line.overlap \in {0, 1}
+  /\ Line.destroyedMid = 0 /\ Line.mid = rstart + rk        \* creator's (lender's) references + the k acquired ones
+  /\ Line.destroyedAfter = 0 /\ Line.after = rstart         \* not destroyed before the lender's release
+  /\ Line.destroyedEnd = 1                                  \* exactly once, at the last release
+  /\ rseen' = rseen + Line.n /\ rover' = rover + Line.overlap * Line.n
+  /\ UNCHANGED <<phase, rk, rstart>>
+  /\ BurstVarsUnchanged
+RoundsEnd ==
+  /\ E = "RoundsEnd" /\ phase = "rounds"
+  /\ Line.rounds = rseen /\ Line.overlapping = rover
+  /\ l' = l + 1 /\ IdleNext
+
 Step == /\ l <= N /\ E # "Reset"
-        /\ \/ Final
-           \/ (Start \/ Books \/ Quiescent \/ CreatorDrop \/ Release) /\ l' = l + 1
+        /\ \/ Final \/ RoundsEnd
+           \/ (Start \/ Books \/ Quiescent \/ CreatorDrop \/ Release \/ RoundsStart \/ Round) /\ l' = l + 1
 Reset == l <= N /\ E = "Reset" /\ l' = l + 1 /\ IdleNext
 TNext == Step \/ Reset
 TSpec == TInit /\ [][TNext]_tvars
